@@ -126,6 +126,53 @@ def fn_hash(node):
   return hashlib.sha256(ast.unparse(node).encode()).hexdigest()[:16]
 
 
+def alpha_form(node):
+  """(hash, names): the function with every local variable replaced by its rank of first binding, and those variables in
+  that order. Two functions with the same hash differ only in the names of locals (and comments / docstring): then the
+  sidecar contract, whose loop invariants name locals, is read through the renaming. Parameters are not renamed."""
+  import copy
+  fn = copy.deepcopy(node)
+  if (fn.body and isinstance(fn.body[0], ast.Expr) and isinstance(fn.body[0].value, ast.Constant)
+      and isinstance(fn.body[0].value.value, str)):
+    fn.body = fn.body[1:] or [ast.Pass()]
+  params = {a.arg for a in fn.args.posonlyargs + fn.args.args + fn.args.kwonlyargs}
+  for a in (fn.args.vararg, fn.args.kwarg):
+    if a is not None:
+      params.add(a.arg)
+  order, fixed = [], set(params)
+  for n in ast.walk(fn):
+    if isinstance(n, (ast.Global, ast.Nonlocal)):
+      fixed |= set(n.names)
+  class Collect(ast.NodeVisitor):
+    def visit_FunctionDef(self, n):       # nested functions / lambdas keep their own names (closures read ours by name)
+      if n is fn:
+        self.generic_visit(n)
+      else:
+        bind(n.name)
+    def visit_Name(self, n):
+      if isinstance(n.ctx, (ast.Store, ast.Del)):
+        bind(n.id)
+    def visit_ExceptHandler(self, n):
+      if n.name:
+        bind(n.name)
+      self.generic_visit(n)
+  def bind(name):
+    if name not in fixed and name not in order:
+      order.append(name)
+  nested = [n for n in ast.walk(fn) if n is not fn and isinstance(n, (ast.FunctionDef, ast.AsyncFunctionDef, ast.Lambda, ast.ClassDef))]
+  Collect().visit(fn)
+  if nested:
+    # closures: renaming across scopes needs scope analysis; keep it simple and sound - no renaming tolerance
+    return hashlib.sha256(ast.dump(fn).encode()).hexdigest()[:16], []
+  rank = {nme: f'_L{i}' for i, nme in enumerate(order)}
+  for n in ast.walk(fn):
+    if isinstance(n, ast.Name) and n.id in rank:
+      n.id = rank[n.id]
+    elif isinstance(n, ast.ExceptHandler) and n.name in rank:
+      n.name = rank[n.name]
+  return hashlib.sha256(ast.dump(fn).encode()).hexdigest()[:16], order
+
+
 def decorators(node):
   out = []
   for d in node.decorator_list:
